@@ -10,7 +10,9 @@ META = {
                       "parcor(levinson_durbin(r)) for symbolic r with p<=2; stability: denominators g*prod(1-rho_i z^-1)*prod(1-2 re z^-1+"
                       "(re^2+im^2) z^-2) with symbolic gain g!=0, symbolic real roots / conjugate pairs, order<=2; order 3 as one symbolic "
                       "factor times factors from a table of rational roots inside/on/outside the unit circle",
-             "thorough": "p<=4, order-3 stability fully symbolic attempted under a 120 s cap (optional), order 4 with table factors"},
+             "thorough": "p<=3 claimed (p=4 attempted, optional: degree blow-up), parcor(levinson_durbin(r)) p<=3 (p=3 optional), order-3 "
+                         "stability fully symbolic attempted under a 120 s cap (optional), order 4 as two symbolic real roots times "
+                         "two table roots (optional)"},
   "outside": "orders above the bound, filters with feedback passed to parcor (ValueError by design), IEEE rounding",
   "stubs": [],
   "assumptions": ["exact real arithmetic", "stability of a real polynomial is stated on its real roots and conjugate pairs by construction"],
@@ -152,11 +154,12 @@ def tasks(tier, seed):
   big = tier == "thorough"
   T = []
   for p in ((1, 2, 3) if not big else (1, 2, 3, 4)):
-    T.append(("h_stepdown", {"p": p}))
-    T.append(("h_stepdown", {"p": p, "gain": True}))
+    opt = {"optional": True, "task_s": 600} if p >= 4 else {}       # p = 4: degree blow-up, attempted only
+    T.append(("h_stepdown", {"p": p}, opt))
+    T.append(("h_stepdown", {"p": p, "gain": True}, opt))
     for zi in range(p - 1):
-      T.append(("h_stepdown", {"p": p, "zeros": [zi]}))
-    if p >= 3: T.append(("h_stepdown", {"p": p, "zeros": list(range(p - 1))}))
+      T.append(("h_stepdown", {"p": p, "zeros": [zi]}, opt))
+    if p >= 3: T.append(("h_stepdown", {"p": p, "zeros": list(range(p - 1))}, opt))
     for crit in range(p):
       if p <= 3: T.append(("h_critical", {"p": p, "crit": crit}))
   for p in ((1, 2) if not big else (1, 2, 3)):
